@@ -82,6 +82,7 @@ type genLoop struct {
 	v     []s2.Point
 	degen bool // true area is (nearly) 0 or 4*pi by construction: run the containment check
 	conv  bool // convex and small enough for the fan triangulation check
+	sfx   string // suffix of the violation kinds (".underflow" for vertices closer than ~1e-150: separate finding class)
 }
 
 func rot(v []s2.Point, k int) []s2.Point {
@@ -118,7 +119,7 @@ func ulpPoint(p s2.Point, kx, ky, kz int) s2.Point {
 func generate(rng *vkit.Rng, budget int) []genLoop {
 	var out []genLoop
 	add := func(class string, v []s2.Point, degen, conv bool) {
-		out = append(out, genLoop{class, v, degen, conv})
+		out = append(out, genLoop{class, v, degen, conv, ""})
 	}
 	radii := []float64{1e-7, 3e-6, 1e-4, 1e-3, 0.01, 0.1, 0.5, 1.0, 1.5, math.Pi/2 - 1e-9, math.Pi / 2}
 	for rep := 0; rep < budget; rep++ {
@@ -214,6 +215,25 @@ func generate(rng *vkit.Rng, budget int) []genLoop {
 				v[i] = s2.InterpolateAtDistance(s1.Angle(scale*rng.Range(0.3, 1)), ctr, base[i])
 			}
 			add("radial-random", v, false, false)
+		}
+		// underflow scale: valid loops (Validate()==nil) whose vertices are 1e-300..1e-160 apart, so that
+		// PointCross products are tiny and the products inside Angle underflow
+		for k := 0; k < 3; k++ {
+			d := []float64{1e-200, 1e-300, 1e-170, 3e-162}[rng.Intn(4)]
+			e := []float64{1e-200, 1e-300, 1e-170, 3e-162}[rng.Intn(4)]
+			var v []s2.Point
+			switch k {
+			case 0:
+				v = []s2.Point{{Vector: r3.Vector{X: 1}}, {Vector: r3.Vector{X: 1, Y: d}}, {Vector: r3.Vector{X: 1, Z: e}}}
+			case 1:
+				v = []s2.Point{{Vector: r3.Vector{Z: 1}}, {Vector: r3.Vector{X: d, Z: 1}}, {Vector: r3.Vector{X: d, Y: e, Z: 1}}, {Vector: r3.Vector{Y: e, Z: 1}}}
+			default:
+				v = []s2.Point{{Vector: r3.Vector{Y: -1}}, {Vector: r3.Vector{X: d, Y: -1, Z: -e}}, {Vector: r3.Vector{X: -e, Y: -1, Z: d}}}
+			}
+			if rng.Bool() {
+				v = rev(v)
+			}
+			out = append(out, genLoop{"underflow-scale loop", v, true, false, ".underflow"})
 		}
 		// larger loops
 		add("regular n=100", s2.RegularLoop(randPoint(rng), s1.Angle(rng.Range(0.01, 1.2)), 100).Vertices(), false, true)
@@ -350,7 +370,7 @@ func (st *state) processLoop(g genLoop, full bool) {
 	tol := areaTol(n)
 	i0, dir := l.CanonicalFirstVertex()
 	if area < 0 || area > 4*math.Pi || math.IsNaN(area) {
-		c.Violate("Loop.Area.range", "Area outside [0,4pi]", replay(g.class, v, map[string]interface{}{"area": area}))
+		c.Violate("Loop.Area.range"+g.sfx, "Area outside [0,4pi]", replay(g.class, v, map[string]interface{}{"area": area}))
 	}
 
 	// ---- rotations: TurningAngle bit-identical, same canonical start, Area within tolerance
@@ -367,18 +387,18 @@ func (st *state) processLoop(g genLoop, full bool) {
 		lr := s2.LoopFromPoints(rv)
 		c.Evals++
 		if tr := lr.TurningAngle(); !bitsEq(tr, ta) {
-			c.Violate("Loop.TurningAngle.rotate", "TurningAngle changes when the vertex list is rotated", replay(g.class, v, map[string]interface{}{"k": k, "turning_angle": fmt.Sprintf("%x", ta), "rotated": fmt.Sprintf("%x", tr)}))
+			c.Violate("Loop.TurningAngle.rotate"+g.sfx, "TurningAngle changes when the vertex list is rotated", replay(g.class, v, map[string]interface{}{"k": k, "turning_angle": fmt.Sprintf("%x", ta), "rotated": fmt.Sprintf("%x", tr)}))
 		}
 		ir, dr := lr.CanonicalFirstVertex()
 		if dr != dir || (ir+k)%n != i0%n {
-			c.Violate("Loop.CanonicalFirstVertex.rotate", "canonical first vertex is not the same geometric vertex/direction after rotation", replay(g.class, v, map[string]interface{}{"k": k, "first": i0, "dir": dir, "rot_first": ir, "rot_dir": dr}))
+			c.Violate("Loop.CanonicalFirstVertex.rotate"+g.sfx, "canonical first vertex is not the same geometric vertex/direction after rotation", replay(g.class, v, map[string]interface{}{"k": k, "first": i0, "dir": dir, "rot_first": ir, "rot_dir": dr}))
 		}
 		ar := lr.Area()
 		if e := math.Abs(ar-area) / (2 * tol); e > st.maxRotErr {
 			st.maxRotErr = e
 		}
 		if math.Abs(ar-area) > 2*tol {
-			c.Violate("Loop.Area.rotate", "Area depends on the starting vertex beyond the documented error", replay(g.class, v, map[string]interface{}{"k": k, "area": area, "rotated_area": ar, "tol": 2 * tol}))
+			c.Violate("Loop.Area.rotate"+g.sfx, "Area depends on the starting vertex beyond the documented error", replay(g.class, v, map[string]interface{}{"k": k, "area": area, "rotated_area": ar, "tol": 2 * tol}))
 		}
 	}
 
@@ -387,27 +407,27 @@ func (st *state) processLoop(g genLoop, full bool) {
 	li.Invert()
 	tai, areaI := li.TurningAngle(), li.Area()
 	if !bitsEq(tai, -ta) {
-		c.Violate("Loop.TurningAngle.invert", "TurningAngle of the inverted loop is not the exact negation", replay(g.class, v, map[string]interface{}{"turning_angle": fmt.Sprintf("%x", ta), "inverted": fmt.Sprintf("%x", tai)}))
+		c.Violate("Loop.TurningAngle.invert"+g.sfx, "TurningAngle of the inverted loop is not the exact negation", replay(g.class, v, map[string]interface{}{"turning_angle": fmt.Sprintf("%x", ta), "inverted": fmt.Sprintf("%x", tai)}))
 	}
 	lrev := s2.LoopFromPoints(rev(v))
 	if tr := lrev.TurningAngle(); !bitsEq(tr, -ta) {
-		c.Violate("Loop.TurningAngle.invert", "TurningAngle of the reversed vertex list is not the exact negation", replay(g.class, v, map[string]interface{}{"turning_angle": fmt.Sprintf("%x", ta), "reversed": fmt.Sprintf("%x", tr)}))
+		c.Violate("Loop.TurningAngle.invert"+g.sfx, "TurningAngle of the reversed vertex list is not the exact negation", replay(g.class, v, map[string]interface{}{"turning_angle": fmt.Sprintf("%x", ta), "reversed": fmt.Sprintf("%x", tr)}))
 	}
 	ii, di := li.CanonicalFirstVertex()
 	if di != -dir || (n-1-ii%n)%n != i0%n {
-		c.Violate("Loop.CanonicalFirstVertex.invert", "canonical first vertex of the inverted loop is not the same geometric vertex with opposite direction", replay(g.class, v, map[string]interface{}{"first": i0, "dir": dir, "inv_first": ii, "inv_dir": di}))
+		c.Violate("Loop.CanonicalFirstVertex.invert"+g.sfx, "canonical first vertex of the inverted loop is not the same geometric vertex with opposite direction", replay(g.class, v, map[string]interface{}{"first": i0, "dir": dir, "inv_first": ii, "inv_dir": di}))
 	}
 	if li.ContainsOrigin() == l.ContainsOrigin() {
-		c.Violate("Loop.Invert.originInside", "Invert did not flip ContainsOrigin", replay(g.class, v, nil))
+		c.Violate("Loop.Invert.originInside"+g.sfx, "Invert did not flip ContainsOrigin", replay(g.class, v, nil))
 	}
 	if e := math.Abs(area+areaI-4*math.Pi) / (2 * tol); e > st.maxSumErr {
 		st.maxSumErr = e
 	}
 	if math.Abs(area+areaI-4*math.Pi) > 2*tol {
-		c.Violate("Loop.Area.complement", "Area(L)+Area(inverse L) differs from 4*pi beyond the documented error", replay(g.class, v, map[string]interface{}{"area": area, "inverse_area": areaI, "tol": 2 * tol}))
+		c.Violate("Loop.Area.complement"+g.sfx, "Area(L)+Area(inverse L) differs from 4*pi beyond the documented error", replay(g.class, v, map[string]interface{}{"area": area, "inverse_area": areaI, "tol": 2 * tol}))
 	}
 	if !l.IsNormalized() && !li.IsNormalized() {
-		c.Violate("Loop.IsNormalized.pair", "neither the loop nor its inverse is normalized", replay(g.class, v, nil))
+		c.Violate("Loop.IsNormalized.pair"+g.sfx, "neither the loop nor its inverse is normalized", replay(g.class, v, nil))
 	}
 
 	// ---- containment consistency (degenerate and tiny loops): far points are inside iff the area is near 4*pi
@@ -419,12 +439,12 @@ func (st *state) processLoop(g genLoop, full bool) {
 		}{{l, area, "loop"}, {li, areaI, "inverse"}} {
 			big := pair.a > 2*math.Pi
 			if pair.a > 1e-6 && pair.a < 4*math.Pi-1e-6 {
-				c.Violate("Loop.Area.degenerate", "a (nearly) degenerate loop has an area far from both 0 and 4*pi", replay(g.class, v, map[string]interface{}{"which": pair.w, "area": pair.a}))
+				c.Violate("Loop.Area.degenerate"+g.sfx, "a (nearly) degenerate loop has an area far from both 0 and 4*pi", replay(g.class, v, map[string]interface{}{"which": pair.w, "area": pair.a}))
 			}
 			for _, p := range farPoints(rng, v, 12, 0.05) {
 				c.Evals++
 				if pair.l.ContainsPoint(p) != big {
-					c.Violate("Loop.Area.containment", "area near 0/4*pi disagrees with ContainsPoint of a point far from the boundary", replay(g.class, v, map[string]interface{}{"which": pair.w, "area": pair.a, "point": []float64{p.X, p.Y, p.Z}, "contains": pair.l.ContainsPoint(p)}))
+					c.Violate("Loop.Area.containment"+g.sfx, "area near 0/4*pi disagrees with ContainsPoint of a point far from the boundary", replay(g.class, v, map[string]interface{}{"which": pair.w, "area": pair.a, "point": []float64{p.X, p.Y, p.Z}, "contains": pair.l.ContainsPoint(p)}))
 					break
 				}
 			}
@@ -444,7 +464,7 @@ func (st *state) processLoop(g genLoop, full bool) {
 			st.maxFanErr = e
 		}
 		if math.Abs(sum-area) > tol {
-			c.Violate("Loop.Area.triangulation", "Area differs from the sum of the fan triangle areas beyond the documented error", replay(g.class, v, map[string]interface{}{"area": area, "fan_sum": sum, "tol": tol}))
+			c.Violate("Loop.Area.triangulation"+g.sfx, "Area differs from the sum of the fan triangle areas beyond the documented error", replay(g.class, v, map[string]interface{}{"area": area, "fan_sum": sum, "tol": tol}))
 		}
 	}
 
@@ -469,9 +489,17 @@ func (st *state) processLoop(g genLoop, full bool) {
 
 func (st *state) triangles(budget int) {
 	c, rng := st.c, st.rng
-	for k := 0; k < 60*budget; k++ {
+	{ // fixed witness of the underflow finding (also the Coq witness of turn_angle_reverse_distinct_refuted)
+		a, b, cc := s2.Point{Vector: r3.Vector{X: 1}}, s2.Point{Vector: r3.Vector{X: 1, Z: 1e-300}}, s2.Point{Vector: r3.Vector{X: 1, Y: 1e-300, Z: -1e-300}}
+		c.Evals++
+		if x, y := s2.TurnAngle(a, b, cc), s2.TurnAngle(cc, b, a); !bitsEq(float64(x), -float64(y)) {
+			c.Violate("TurnAngle.reverse.underflow", "TurnAngle(a,b,c) != -TurnAngle(c,b,a) for distinct points 1e-300 apart (products inside Angle underflow; PointCross does not call EnsureNormalizable)",
+				map[string]interface{}{"a": []float64{1, 0, 0}, "b": []float64{1, 0, 1e-300}, "c": []float64{1, 1e-300, -1e-300}, "abc": float64(x), "cba": float64(y)})
+		}
+	}
+	for k := 0; k < 70*budget; k++ {
 		var a, b, cc s2.Point
-		switch k % 6 {
+		switch k % 7 {
 		case 0:
 			a, b, cc = randPoint(rng), randPoint(rng), randPoint(rng)
 		case 1: // small
@@ -498,8 +526,13 @@ func (st *state) triangles(budget int) {
 		case 5: // axis points, shared coordinates (zeros in the differences)
 			ax := []s2.Point{{Vector: r3.Vector{X: 1}}, {Vector: r3.Vector{Y: 1}}, {Vector: r3.Vector{Z: 1}}, {Vector: r3.Vector{X: -1}}, s2.PointFromCoords(1, 1, 0), s2.PointFromCoords(0, 1, 1), s2.PointFromCoords(1, 0, -1)}
 			a, b, cc = ax[rng.Intn(len(ax))], ax[rng.Intn(len(ax))], ax[rng.Intn(len(ax))]
+		case 6: // underflow scale: points 5e-324..1e-160 apart
+			tiny := []float64{0, 1e-300, -1e-300, 1e-200, -1e-200, 1e-162, 3e-162, -1e-162, 5e-324, -5e-324}
+			a = s2.Point{Vector: r3.Vector{X: 1}}
+			b = s2.Point{Vector: r3.Vector{X: 1, Y: tiny[rng.Intn(len(tiny))], Z: tiny[rng.Intn(len(tiny))]}}
+			cc = s2.Point{Vector: r3.Vector{X: 1, Y: tiny[rng.Intn(len(tiny))], Z: tiny[rng.Intn(len(tiny))]}}
 		}
-		c.Class(fmt.Sprintf("triangle kind %d", k%6))
+		c.Class(fmt.Sprintf("triangle kind %d", k%7))
 		key := fmt.Sprintf("tri %x %x %x", math.Float64bits(a.X), math.Float64bits(b.Y), math.Float64bits(cc.Z))
 		c.Eval(key, true)
 		A, B, C := pt(a), pt(b), pt(cc)
@@ -522,7 +555,11 @@ func (st *state) triangles(budget int) {
 		}
 		if a != b && b != cc && a != cc {
 			if x, y := s2.TurnAngle(a, b, cc), s2.TurnAngle(cc, b, a); !bitsEq(float64(x), -float64(y)) {
-				c.Violate("TurnAngle.reverse", "TurnAngle(a,b,c) != -TurnAngle(c,b,a) for distinct points", map[string]interface{}{"a": []string{fmt.Sprintf("%x", a.X), fmt.Sprintf("%x", a.Y), fmt.Sprintf("%x", a.Z)}, "b": []string{fmt.Sprintf("%x", b.X), fmt.Sprintf("%x", b.Y), fmt.Sprintf("%x", b.Z)}, "c": []string{fmt.Sprintf("%x", cc.X), fmt.Sprintf("%x", cc.Y), fmt.Sprintf("%x", cc.Z)}, "abc": fmt.Sprintf("%x", float64(x)), "cba": fmt.Sprintf("%x", float64(y))})
+				kind := "TurnAngle.reverse"
+				if k%7 == 6 {
+					kind = "TurnAngle.reverse.underflow"
+				}
+				c.Violate(kind, "TurnAngle(a,b,c) != -TurnAngle(c,b,a) for distinct points", map[string]interface{}{"a": []string{fmt.Sprintf("%x", a.X), fmt.Sprintf("%x", a.Y), fmt.Sprintf("%x", a.Z)}, "b": []string{fmt.Sprintf("%x", b.X), fmt.Sprintf("%x", b.Y), fmt.Sprintf("%x", b.Z)}, "c": []string{fmt.Sprintf("%x", cc.X), fmt.Sprintf("%x", cc.Y), fmt.Sprintf("%x", cc.Z)}, "abc": fmt.Sprintf("%x", float64(x)), "cba": fmt.Sprintf("%x", float64(y))})
 			}
 		}
 		if pa := s2.PointArea(a, b, cc); pa < 0 || pa > 2*math.Pi*(1+1e-12) {
@@ -542,9 +579,6 @@ func (st *state) polygons(budget int) {
 		for j := 0; j < nl; j++ {
 			r := scale * float64(nl-j) / float64(nl)
 			lp := s2.RegularLoop(ctr, s1.Angle(r), 3+rng.Intn(6))
-			if rng.Bool() {
-				lp.Invert() // the constructor must cope with either orientation
-			}
 			loops = append(loops, lp)
 		}
 		if rng.Bool() {
